@@ -2,7 +2,7 @@
    only), and the dispatcher run : sx -> sx that the extracted driver and the
    vm_compute cross-check both call. *)
 From SV Require Export Model.Num Model.Expr Model.Heap Model.Plot Model.Prim.
-From SV Require Import Lemmas.Measure Lemmas.UnionSound.
+From SV Require Import Lemmas.Measure Lemmas.UnionSound Lemmas.DiffSound.
 Open Scope Q_scope.
 
 Fixpoint sx_eqb (x y : sx) : bool :=
@@ -300,6 +300,11 @@ Definition run (req : sx) : sx :=
           match d_jordan ja, d_jordan jb, d_bool closed, d_bool inside, d_point p with
           | Some ja, Some jb, Some c, Some i, Some p => e_bool (sound_hyps_b ja jb c i p)
           | _, _, _, _, _ => bad end
+      | 48%nat, [ja; jb; p] =>
+          (* the decidable hypotheses of Props/C01.v C01_difference_sound *)
+          match d_jordan ja, d_jordan jb, d_point p with
+          | Some ja, Some jb, Some p => e_bool (diff_hyps_b ja jb p)
+          | _, _, _ => bad end
       | 43%nat, [k; a; c] =>
           match d_nat k, d_pyarg a, d_point c with
           | Some k, Some a, Some c =>
